@@ -55,3 +55,10 @@ Definition api_rollbacks (first : bool) (ids : list Z) := rollbacks (if first th
 Definition api_fix_char (c : N) : N := fix_char_u32 c.
 Definition api_is_scalar (c : N) : bool := is_scalar c.
 Definition api_melee_string (bs : list byte) := melee_string bs.
+
+Definition api_parse_header (bs : list byte) := parse_header bs.
+Definition api_parse_start (bs : list byte) := parse_start bs.
+Definition api_parse_event (s : pstate) (bs : list byte) := parse_event s bs.
+Definition api_parse_metadata (s : pstate) (bs : list byte) := parse_metadata s bs.
+Definition api_rd_exact (n : nat) (bs : list byte) := rd_exact n bs.
+Definition api_state_version (s : pstate) : version := ver s.
